@@ -33,11 +33,12 @@ def _overlay():
 
 def _inpkg(ctx, run, env=None, name=None, timeout=1500):
     rep = ctx.go_test(PKG, run=run, env=env, in_repo=True, overlay=_overlay(), tags=None, timeout=timeout, name=name or ("pubsub " + run))
-    if rep.get("drift") and not rep.get("violations"):
+    known = {k["key"] for k in ctx.known_findings() if k.get("status") == "known"}
+    if rep.get("drift") and not [v for v in (rep.get("violations") or []) if v.get("key") not in known]:
         # the engine and the specification disagree although no property predicate failed: the check cannot vouch
         raise _broken("DRIFT in %s (%d): %s" % (run, rep["drift"], "; ".join(rep.get("drift_notes") or [])[:3000]))
     for n in (rep.get("drift_notes") or [])[:3]:
-        ctx.notes.append("drift (after a reported violation): " + n[:300])
+        ctx.notes.append("drift (next to a reported violation): " + n[:300])
     return rep
 
 
@@ -308,7 +309,8 @@ def _record_validate(ctx, selftest, recorded):
             line = int(m.group(1)) if m else -1
             lines = open(trace).read().splitlines()
             ctx.cov["drift"] += 1
-            if not rep.get("violations"):
+            known = {k["key"] for k in ctx.known_findings() if k.get("status") == "known"}
+            if not [v for v in (rep.get("violations") or []) if v.get("key") not in known]:
                 raise _broken("DRIFT: recorded %s-role run is not a behaviour of PubSub.tla at event %d (no property predicate failed): %s" % (
                     what, line, lines[line - 1][:1500] if 0 < line <= len(lines) else "?"))
             ctx.notes.append("recorded %s run left the spec at event %d (after a reported violation)" % (what, line))
